@@ -19,7 +19,7 @@ import vlib, reflcommon as rc
 
 INVS = ["TypeOK", "ReplayOK", "OpsFit", "EntriesAreChildren", "NoDuplicates"]
 BASE = {"Owner": '"W"', "Subs": '{"S"}', "Parents": '{"p"}', "Explicit": '{"x", "I1"}', "MaxGen": 3, "MaxKids": 4, "PPayloads": "{1}", "Filters": "{0}",
-        "Befores": '{"zz"}', "Clones": "FALSE", "Deviations": "{}", "RECORD": "FALSE"}
+        "Befores": '{"zz"}', "Clones": "FALSE", "Refusals": "FALSE", "Batches": "FALSE", "Churn": "FALSE", "QuietOps": "FALSE", "Deviations": "{}", "RECORD": "FALSE"}
 
 
 def inst(sessions, need, **kw):
@@ -28,14 +28,18 @@ def inst(sessions, need, **kw):
 
 
 QUICK = {
-    "single":  inst(["W", "S"], ["insert", "reorder", "remove", "set", "set-idx", "subscribe", "unsubscribe"]),
-    "filter":  inst(["W", "S"], ["subscribe", "getdata", "insert"], PPayloads="{1, 2}", Filters="{0, 1}", Explicit='{"x"}', MaxGen=2, MaxKids=2, Subs='{"S", "W"}'),
+    # one parent, explicit names x and I1 (a generated name must skip it), a server child limit of 3: refused inserts / sets
+    "single":  inst(["W", "S"], ["insert", "insert-refused", "reorder", "remove", "set", "set-idx", "subscribe", "unsubscribe"], MaxKids=3, Refusals="TRUE"),
+    # payload filters, the owner subscribed to its own node, quiet subscribes / removals, and every pair of owner commands as ONE BATCH
+    "filter":  inst(["W", "S"], ["subscribe", "quiet-subscribe", "quiet-remove", "getdata", "insert", "batch-first"], PPayloads="{1, 2}", Filters="{0, 1}", Explicit='{"x"}', MaxGen=2, MaxKids=2,
+                    Subs='{"S", "W"}', Batches="TRUE", QuietOps="TRUE"),
     "two":     inst(["W", "S"], ["clone", "restore", "insert", "reorder"], Parents='{"p", "q"}', Explicit="{}", MaxGen=2, MaxKids=2, Clones="TRUE"),
-    "joiners": inst(["W", "S", "S2"], ["subscribe", "unsubscribe", "insert"], Subs='{"S", "S2"}', Explicit="{}", MaxGen=3, MaxKids=3),
+    # two subscribers joining and leaving at any point, the owner's session departing and coming back
+    "joiners": inst(["W", "S", "S2"], ["subscribe", "unsubscribe", "insert", "disconnect", "connect"], Subs='{"S", "S2"}', Explicit="{}", MaxGen=3, MaxKids=3, Churn="TRUE"),
 }
 THOROUGH = {
-    "single5": inst(["W", "S"], ["insert", "reorder", "remove"], MaxGen=4, MaxKids=5),
-    "filter3": inst(["W", "S"], ["subscribe", "getdata"], PPayloads="{1, 2}", Filters="{0, 1}", Explicit='{"x"}', MaxGen=2, MaxKids=3, Subs='{"S", "W"}'),
+    "single5": inst(["W", "S"], ["insert", "insert-refused", "reorder", "remove"], MaxGen=4, MaxKids=4, Refusals="TRUE"),
+    "filter3": inst(["W", "S"], ["subscribe", "getdata", "batch-first"], PPayloads="{1, 2}", Filters="{0, 1}", Explicit='{"x"}', MaxGen=2, MaxKids=3, Subs='{"S", "W"}', Batches="TRUE", QuietOps="TRUE", Refusals="TRUE"),
     "two3":    inst(["W", "S"], ["clone", "restore"], Parents='{"p", "q"}', Explicit='{"x"}', MaxGen=2, MaxKids=3, Clones="TRUE"),
 }
 REACH = [("F26", {"Parents": '{"p", "q"}', "Explicit": "{}", "MaxGen": 2, "MaxKids": 2, "Clones": "TRUE", "Deviations": '{"F26"}'}, ["NoDuplicates"]),
@@ -45,6 +49,9 @@ REACH = [("F26", {"Parents": '{"p", "q"}', "Explicit": "{}", "MaxGen": 2, "MaxKi
 
 
 def opname(cmd):
+    if cmd.get("hold"): return "batch-first"
+    if cmd.get("refused"): return cmd["op"] + "-refused"
+    if cmd.get("quiet"): return "quiet-" + cmd["op"]
     if cmd["op"] == "set" and cmd.get("idx"): return "set-idx"
     return cmd["op"]
 
@@ -79,7 +86,7 @@ def run(v, tier, seed):
         smp = [w for w in walks if len(w) >= 5][:1]
         del r.printed[:]
         bf = W("beh_%s.ndjson" % name); rep = W("rep_%s.ndjson" % name)
-        vlib.write_ndjson(bf, [{"id": i, "kind": "index", "sessions": I["sessions"], "connect": I["sessions"], "steps": w} for i, w in enumerate(walks)])
+        vlib.write_ndjson(bf, [{"id": i, "kind": "index", "sessions": I["sessions"], "connect": I["sessions"], "maxkids": (int(c["MaxKids"]) if c["Refusals"] == "TRUE" else 0), "steps": w} for i, w in enumerate(walks)])
         rc.run_refl(["replay", bf, rep], timeout=(300 if tier == "quick" else 2400))
         rows = vlib.read_ndjson(rep)
         os.remove(bf)
